@@ -230,7 +230,7 @@ package tan
 //@ nobounds
 //@ requires !gWriteFailed && !gReadFailed
 //@ modifies gWriteFailed, gDirDirty, gDataSynced
-//@ ensures result == nil ==> gDataSynced
+//@ ensures result == nil ==> gDataSynced && !gWriteFailed
 
 // a new MANIFEST becomes current only together with a directory sync
 //@ func (vs *versionSet) create [C10]
@@ -249,7 +249,7 @@ package tan
 //@ requires !gDirHandles[obj(vs.manifestFile)]
 //@ modifies gWriteFailed, gDirDirty, gDataSynced
 //@ ensures result == nil ==> !gDirDirty
-//@ ensures result == nil ==> gDataSynced
+//@ ensures result == nil ==> gDataSynced && !gWriteFailed
 
 //@ func (vs *versionSet) init [C10]
 //@ trusted in-memory initialisation
@@ -314,8 +314,17 @@ package tan
 // active log goes into the version edit as deleted -- nothing is kept because some in-memory
 // index happens (not) to reference it; a file left in the MANIFEST is read again on reopen and its
 // old entries reappear beyond the imported index.
-//@ func (d *db) createNewLog [C20]
-//@ trusted switches to a fresh log file (creates it, records it in the MANIFEST, syncs the directory)
+// C10/C04: a new log file is made durable in its directory BEFORE the MANIFEST names it: the directory
+// is fsynced between the creation of the file and the version edit (whose own contract requires a
+// clean directory) -- otherwise a crash leaves a MANIFEST pointing at a file that does not exist
+//@ func prealloc [C10]
+//@ trusted preallocates space for the log file (no effect on names or data)
+//@ func (d *db) createNewLog [C20 C10 C04]
+//@ noframe
+//@ nobounds
+//@ requires !gWriteFailed && !gReadFailed && !gDirDirty && gDirHandles[obj(d.dataDir)] && !gDirHandles[obj(d.mu.versions.manifestFile)]
+//@ modifies gWriteFailed, gDirDirty, gDataSynced
+//@ ensures result == nil ==> !gDirDirty && !gWriteFailed && !gReadFailed
 //@ func (d *db) updateReadStateLocked [C20]
 //@ trusted publishes the new read state (in-memory)
 //@ func (d *db) notifyDeleteObsoleteWorker [C20]
